@@ -94,6 +94,9 @@ func RunCase(c *world.Case, o RunOpts) *world.Outcome {
 	if c.Config.SortCanary > 0 {
 		env = append(env, fmt.Sprintf("VERIF_SORT_CANARY=%d", c.Config.SortCanary))
 	}
+	if v := os.Getenv("VERIF_LOGTAIL"); v != "" {
+		env = append(env, "VERIF_LOGTAIL="+v)
+	}
 	if c.Config.Race {
 		env = append(env, "GORACE=halt_on_error=0 exitcode=0")
 	}
